@@ -640,6 +640,8 @@ program(uint64_t seed, uint64_t idx)
 	 * process, which is why each shard is split over several processes.
 	 */
 	nfd = vh_chance(&R, 1, 8) ? NFD : 12;
+	/* one program in ten uses high descriptor numbers (the loop's per-descriptor list grows) */
+	simk_fd_floor = vh_chance(&R, 1, 10) ? (int)vh_range(&R, 60, 900) : 0;
 	for (i = 0; i < nfd; i++) {
 		fdpool[i] = simk_newfd();
 		lastpoll_ready[i] = 0;
